@@ -160,6 +160,9 @@ func c07Header(w *c07World) []int64 {
 	if w.limited {
 		line[2] |= 2
 	}
+	if w.blankD {
+		line[2] |= 4
+	}
 	line = append(line, w.limD...)
 	line = append(line, w.limL...)
 	return line
